@@ -46,8 +46,26 @@ def main():
         out.append(f"| {name} | {prop} | {m.get('what', '')[:170]} | {m.get('needs_to_manifest', '')[:150]} | {'caught' if own_c else '**missed**'} | {', '.join(others) or '-'}" + (f" (not: {', '.join(missed_o)})" if missed_o else "") + " |")
     out.append(f"\n{n_own} of {n} seeded changes are caught by the quick tier of the check of the property they were written against (seed 0); see the notes below the table for the rest.")
     st = "\n".join(out)
+    # 5.1: one row per fix: commit (from known_findings.json "fixed") and 5.2: one row per open finding
+    kf = json.load(open(os.path.join(ROOT, "known_findings.json")))
+    rows = ["| property | commit | what failed (first seen by the check of that property; 'also Cxx' = other checks that see it) |", "|---|---|---|"]
+    for line in kf.get("fixed", []):
+        m = re.match(r"fixed: property=(C\d+) (\w+) (.*)", line)
+        if m:
+            rows.append(f"| {m.group(1)} | `{m.group(2)}` | {m.group(3)} |")
+    ft = "\n".join(rows) + f"\n\n{len(rows) - 2} repaired defects."
+    def mech(f):
+        k = f["key"]
+        if "solver-presolve" in k: return "**solver defect** (HiGHS 1.15.1 presolve, with the library's tolerance 1e-9, declares a feasible model infeasible or returns a non-optimal 'optimal'); classified by re-solving with `presolve='off'`"
+        if "edge-cap-uses-ignored-values" in k: return "(a) caps computed from attribute values of ignored elements"
+        if "edge-cap+product-bound" in k: return "(a) and (b) together"
+        if "edge-cap" in k: return "(a) optimum needs more traversals of an edge than the largest reachable weight"
+        if "product-bound" in k: return "(b) optimum over-shoots an edge / needs a multiplicity above the bit width derived from `w_max`"
+        if "one-node-route-possible" in k: return "one-node route through an isolated node of an edge-weighted graph is dropped as 'empty': fewer than k routes"
+        return f["what_fails"][:170].replace("|", "/") + " ..."
+    kt = "| key | mechanism |\n|---|---|\n" + "\n".join(f"| `{f['key']}` | {mech(f)} |" for f in kf["findings"]) + f"\n\n{len(kf['findings'])} open keys."
     p = os.path.join(ROOT, "DESIGN.md"); s = open(p).read()
-    for tag, txt in (("MUTANT_TABLE", mt), ("SEEDED_TABLE", st)):
+    for tag, txt in (("MUTANT_TABLE", mt), ("SEEDED_TABLE", st), ("FIXED_TABLE", ft), ("KNOWN_TABLE", kt)):
         a, b = f"<!-- BEGIN {tag} -->", f"<!-- END {tag} -->"
         if f"@@{tag}@@" in s:
             s = s.replace(f"@@{tag}@@", f"{a}\n{txt}\n{b}")
